@@ -354,7 +354,9 @@ TPM_RC DoEVPGetIV(
 {
 #if OPENSSL_VERSION_NUMBER >= 0x30000000L
     OSSL_PARAM params[] = {
-        OSSL_PARAM_octet_ptr(OSSL_CIPHER_PARAM_UPDATED_IV, &iv, iv_len),
+        /* octet_string copies the IV into the caller's buffer; octet_ptr would
+         * only redirect the local pointer 'iv' to OpenSSL's internal buffer */
+        OSSL_PARAM_octet_string(OSSL_CIPHER_PARAM_UPDATED_IV, iv, iv_len),
         OSSL_PARAM_END
     };
     if (EVP_CIPHER_CTX_get_params(ctx, params) != 1)
